@@ -36,6 +36,10 @@ type UnionNest struct {
 }
 
 type C06Case struct {
+	// Latin1: before anything is computed, every string of the document is re-encoded rune by rune as one byte per
+	// rune below U+0100 (ISO 8859-1): Go strings that are not valid UTF-8. "é" and "è" then are one byte each,
+	// different from one another and from every other text; rows holding them are duplicates only if the bytes agree
+	Latin1 bool `json:"latin1,omitempty"`
 	// Scale: table t is expanded to 200-700 rows by this recipe (first column spread over many values) before anything
 	// is computed: de-duplication in blocks / batches must keep exactly the first occurrences
 	Scale    *Scale         `json:"scale,omitempty"`
@@ -86,6 +90,7 @@ func init() {
 		Gen: func(t *rapid.T) any {
 			c := genC06(t).(*C06Case)
 			c.Env = genEnvelope(t, "env")
+			c.Latin1 = rapid.IntRange(0, 5).Draw(t, "latin1") == 0
 			if c.Mode != "distinct-star" && rapid.IntRange(0, 3).Draw(t, "gotypes") == 0 {
 				// the two leading columns, when they hold integers and no WHERE compares them with a constant
 				mentioned := map[string]bool{}
@@ -153,7 +158,7 @@ func genC06(t *rapid.T) any {
 			case "int":
 				pools[i] = append(pools[i], rapid.SampledFrom([]float64{0, 1, 2, 3, 10}).Draw(t, l))
 			case "str":
-				pools[i] = append(pools[i], rapid.SampledFrom([]string{"a", "b", "A", "", "a b", "1"}).Draw(t, l))
+				pools[i] = append(pools[i], rapid.SampledFrom([]string{"a", "b", "A", "", "a b", "1", "é", "è", "caf\u00e9", "caf\u00e8"}).Draw(t, l))
 			default:
 				pools[i] = append(pools[i], rapid.Bool().Draw(t, l))
 			}
@@ -393,7 +398,42 @@ func dedupRows(rows []any) []any {
 	return out
 }
 
+func latin1(v any) any {
+	switch t := v.(type) {
+	case string:
+		b := make([]byte, 0, len(t))
+		for _, r := range t {
+			if r < 0x100 {
+				b = append(b, byte(r))
+			} else {
+				b = append(b, string(r)...)
+			}
+		}
+		return string(b)
+	case []any:
+		out := make([]any, len(t))
+		for i, x := range t {
+			out[i] = latin1(x)
+		}
+		return out
+	case map[string]any:
+		out := make(map[string]any, len(t))
+		for k, x := range t {
+			out[k] = latin1(x)
+		}
+		return out
+	}
+	return v
+}
+
 func checkC06(c *C06Case) Result {
+	if c.Latin1 {
+		cc := *c
+		cc.Doc, cc.Latin1 = latin1(c.Doc).(map[string]any), false
+		res := checkC06(&cc)
+		res.Labels = append(res.Labels, "strings-not-valid-utf8")
+		return res
+	}
 	if c.Scale != nil {
 		cc := *c
 		cc.Doc, cc.Scale = c.Scale.ExpandDoc(c.Doc, "t"), nil
